@@ -46,7 +46,7 @@ const (
 // ---------------------------------------------------------------------------------------------------------
 
 type opIn struct {
-	K    string `json:"k"` // C create, D delete, U update, L lookup, X counter key disappears
+	K    string `json:"k"` // C create, D delete, U update, L lookup, X clock passes the counter deadline, K CleanupExpiredMappings
 	Sub  string `json:"sub"`
 	Base string `json:"base"`
 	Tgt  int    `json:"tgt"`
@@ -100,6 +100,7 @@ type caseOut struct {
 	Recs      []recOut   `json:"recs"`
 	Lists     [][]int    `json:"lists"` // [client, ids...]
 	Guards    []int      `json:"guards"`
+	GList     []int      `json:"glist"`
 	Next      int        `json:"next"`
 	NextTTL   bool       `json:"next_ttl"` // the counter key exists and carries a deadline
 	Viol      []viol     `json:"viol"`
@@ -146,6 +147,8 @@ type runState struct {
 
 type tctx struct {
 	client   int64
+	actAs    int64           // cleanup: the client id the internal delete acts with (the record's own)
+	seenExp  map[string]bool // cleanup: mappings this run has read as expired
 	kind     string
 	rmID     string // mapping the current op removes (D: argument; C: the id it claimed)
 	lastRec  string
@@ -215,6 +218,16 @@ func (s *gstore) Get(key string) (any, error) {
 				s.r.delStarted[m.ID] = true
 			}
 		}
+		if c.kind == "K" && err == nil {
+			var m repos.HTTPDomainMapping
+			if json.Unmarshal([]byte(c.lastRec), &m) == nil {
+				c.rmID, c.actAs = m.ID, m.ClientID
+				if m.ExpiresAt != 0 && m.ExpiresAt < s.r.start-1000 {
+					c.seenExp[m.ID] = true
+					s.r.delStarted[m.ID] = true // the cleanup will try to delete it on the owner's behalf
+				}
+			}
+		}
 	}
 	return v, err
 }
@@ -277,7 +290,7 @@ func (s *gstore) SetList(key string, values []any, ttl time.Duration) error {
 	return s.api.(storage.ListStore).SetList(key, values, ttl)
 }
 func (s *gstore) GetList(key string) ([]any, error) {
-	if !isGlobalList(key) && s.gate() {
+	if s.gate() { // the global list is READ only by ListAllMappings (expiry cleanup): a step of its own
 		return nil, errInjected
 	}
 	return s.api.(storage.ListStore).GetList(key)
@@ -349,8 +362,23 @@ func (r *runState) onClaim(thr int, name, id string) {
 	c.rmID = id
 }
 
+func (c *tctx) actor() int64 {
+	if c.kind == "K" {
+		return c.actAs
+	}
+	return c.client
+}
+
+// the expiry cleanup is an internal deleter: it may only remove mappings it has read as expired
+func (r *runState) checkCleanupTarget(c *tctx, what string) {
+	if c.kind == "K" && !c.seenExp[c.rmID] {
+		r.fail("cleanup-removed-unexpired", fmt.Sprintf("CleanupExpiredMappings deleted the %s of %s, which it never read as expired", what, c.rmID))
+	}
+}
+
 func (r *runState) onIndexDelete(thr int, name string) {
 	c := r.ctxs[thr]
+	r.checkCleanupTarget(c, "index entry")
 	cur, err := r.under.Get(repos.KeyPrefixHTTPDomainIndex + name)
 	if err != nil {
 		return // nothing there: harmless
@@ -359,22 +387,23 @@ func (r *runState) onIndexDelete(thr int, name string) {
 	if id != c.rmID {
 		r.staleRemoval = true
 		r.fail("index-released-by-stale-removal", fmt.Sprintf("caller %d (client %d), removing mapping %s, deleted the index entry of %q which points at %s (claimed by client %d)",
-			thr, c.client, c.rmID, name, id, r.claimant(id, name)))
+			thr, c.actor(), c.rmID, name, id, r.claimant(id, name)))
 		return
 	}
-	if who := r.claimant(id, name); who != c.client {
-		r.fail("non-owner-removed-index", fmt.Sprintf("client %d deleted the index entry of %q owned by client %d (mapping %s)", c.client, name, who, id))
+	if who := r.claimant(id, name); who != c.actor() {
+		r.fail("non-owner-removed-index", fmt.Sprintf("a caller acting with client id %d deleted the index entry of %q owned by client %d (mapping %s)", c.actor(), name, who, id))
 	}
 }
 
 func (r *runState) onRecordDelete(thr int, id string) {
 	c := r.ctxs[thr]
+	r.checkCleanupTarget(c, "record")
 	if id != c.rmID {
 		r.fail("foreign-record-deleted", fmt.Sprintf("caller %d removing %s deleted the record of %s", thr, c.rmID, id))
 	}
 	for _, ev := range r.byID[id] {
-		if ev.client != c.client {
-			r.fail("non-owner-removed-record", fmt.Sprintf("client %d deleted record %s of client %d", c.client, id, ev.client))
+		if ev.client != c.actor() {
+			r.fail("non-owner-removed-record", fmt.Sprintf("a caller acting with client id %d deleted record %s of client %d", c.actor(), id, ev.client))
 		}
 	}
 }
@@ -386,6 +415,9 @@ func (r *runState) onRecordWrite(thr int, id string, value any) {
 	if json.Unmarshal([]byte(s), &m) != nil {
 		r.fail("record-not-json", "record "+id+" written with a non-JSON value")
 		return
+	}
+	if m.ClientID <= 0 {
+		r.fail("record-with-unbound-client", fmt.Sprintf("record %s stored with client id %d", id, m.ClientID))
 	}
 	ok := false
 	for _, ev := range r.byID[id] {
@@ -614,7 +646,7 @@ func runSched(c caseIn) *caseOut {
 	for i, t := range c.Threads {
 		r.resume[i] = make(chan struct{})
 		done[i] = make(chan struct{})
-		r.ctxs = append(r.ctxs, &tctx{client: int64(t.Client), faults: append([]bool(nil), t.Faults...)})
+		r.ctxs = append(r.ctxs, &tctx{client: int64(t.Client), seenExp: map[string]bool{}, faults: append([]bool(nil), t.Faults...)})
 		results[i] = [][]int{}
 	}
 	launch := make([]func(), n)
@@ -629,6 +661,7 @@ func runSched(c caseIn) *caseOut {
 			var held []*repos.HTTPDomainMapping
 			for _, op := range t.Ops {
 				tc.kind, tc.rmID, tc.lastRecOK, tc.lastRec = op.K, "", false, ""
+				tc.seenExp = map[string]bool{}
 				switch op.K {
 				case "C":
 					m, err := repo.CreateMapping(ctx, tc.client, op.Sub, op.Base, fmt.Sprintf("h%d", op.Tgt), op.Tgt)
@@ -689,6 +722,13 @@ func runSched(c caseIn) *caseOut {
 						r.checkRouted(i, host, pm, tc.lastRec, tc.lastRecOK)
 					}
 					results[i] = append(results[i], routedRes(pm, err))
+				case "K":
+					n, err := repo.CleanupExpiredMappings(ctx)
+					if err != nil {
+						results[i] = append(results[i], []int{5, errCode(err)})
+					} else {
+						results[i] = append(results[i], []int{6, n})
+					}
 				case "X":
 					// the clock passes every deadline of the counter key (one gated step): the key vanishes iff it carries one
 					// (the store gives a counter created by IncrBy the 24 h default data TTL and never refreshes it)
@@ -776,13 +816,18 @@ func runSched(c caseIn) *caseOut {
 		keys = append(keys, k)
 	}
 	sort.Strings(keys)
-	out.Idx, out.Recs, out.Lists, out.Guards = [][2]string{}, []recOut{}, [][]int{}, []int{}
+	out.Idx, out.Recs, out.Lists, out.Guards, out.GList = [][2]string{}, []recOut{}, [][]int{}, []int{}, []int{}
 	for _, k := range keys {
 		v := all[k]
 		switch {
 		case strings.HasPrefix(k, repos.KeyPrefixHTTPDomainIndex):
 			out.Idx = append(out.Idx, [2]string{hx([]byte(strings.TrimPrefix(k, repos.KeyPrefixHTTPDomainIndex))), strconv.Itoa(idNum(v))})
 		case k == repos.KeyHTTPDomainMappingList:
+			var ids []string
+			_ = json.Unmarshal([]byte(v), &ids)
+			for _, s := range ids {
+				out.GList = append(out.GList, idNum(s))
+			}
 		case strings.HasPrefix(k, repos.KeyPrefixHTTPDomainMapping):
 			var m repos.HTTPDomainMapping
 			if json.Unmarshal([]byte(v), &m) != nil || m.ID != strings.TrimPrefix(k, repos.KeyPrefixHTTPDomainMapping) {
@@ -792,6 +837,9 @@ func runSched(c caseIn) *caseOut {
 			exp := 0
 			if m.ExpiresAt != 0 {
 				exp = t0 + int(m.ExpiresAt-r.start)
+			}
+			if m.ClientID <= 0 {
+				r.fail("record-with-unbound-client", fmt.Sprintf("record %s is stored with client id %d", m.ID, m.ClientID))
 			}
 			out.Recs = append(out.Recs, recOut{idNum(m.ID), hx([]byte(m.FullDomain)), int(m.ClientID), m.TargetPort, stNum(m.Status), exp})
 		case strings.HasPrefix(k, repos.KeyPrefixHTTPDomainClient):
@@ -909,8 +957,10 @@ func runSched(c caseIn) *caseOut {
 			if pm, err := domainproxy.VerifLookup(freeMod, nm+":8080"); err != nil || pm.TargetClientID != 999 || pm.ID != m.ID {
 				r.fail("reclaimed-name-not-routed", fmt.Sprintf("%q was re-claimed as %s by client 999 but %q does not route to it (err=%v)", nm, m.ID, nm+":8080", err))
 			}
-			if err := freeRepo.DeleteMapping(ctx, m.ID, 1000); err == nil || !coreerrors.IsCode(err, coreerrors.CodeForbidden) {
-				r.fail("non-owner-delete", fmt.Sprintf("DeleteMapping(%s) by client 1000 (owner is 999) returned %v", m.ID, err))
+			for _, foreign := range []int64{1000, 0, -1, 1 << 62} { // real foreign client, unbound connection, negative, huge
+				if err := freeRepo.DeleteMapping(ctx, m.ID, foreign); err == nil || !coreerrors.IsCode(err, coreerrors.CodeForbidden) {
+					r.fail("non-owner-delete", fmt.Sprintf("DeleteMapping(%s) with client id %d (owner is 999) returned %v", m.ID, foreign, err))
+				}
 			}
 			if pm, err := domainproxy.VerifLookup(freeMod, nm+":80"); err != nil || pm.ID != m.ID {
 				r.fail("non-owner-delete", fmt.Sprintf("after a refused foreign delete %q no longer routes to %s", nm, m.ID))
